@@ -26,6 +26,8 @@ EXPLANATION = (
   " (STATE-alias / STATE-global) no function of the anchored modules mutates a module- or class-level container, rebinds module / class state or mutates a mutable default argument, so a result never depends on earlier calls;"
   " (FIN-space) xml:space is written exactly where the element's value differs from the inherited one (6 combinations of parent / own values);"
   " (TAB-has-px, fields) every has_px reads every length-typed field of its value type;"
+  " (FIN-cellres) the cell-resolution attribute is written when, and only when, the document's value differs from the 32 x 15 default, evaluated on a grid of resolutions;"
+  " (FIN-dropframe) the SMPTE writer's frame labels agree with ST 12-1 around every minute boundary for drop-frame rates and count plainly for non-drop rates;"
 )
 RULE_TEXT = "per element kind, per style property, per Enum member, per special-value access, per time syntax sample"
 UNDECIDED = ["snapshot equality after re-reading", "numeric precision of written lengths (:g formatting)", "font-family quoting round trip", "times move by less than one unit and never change order"]
